@@ -6,8 +6,10 @@ import (
 	"context"
 	"errors"
 	"fmt"
+	"io"
 	"net/http"
 
+	"connectrpc.com/conformance/internal"
 	conformancev1 "connectrpc.com/conformance/internal/gen/proto/go/connectrpc/conformance/v1"
 )
 
@@ -85,4 +87,21 @@ func VerifC17RawHandler(handlerHeaders []*conformancev1.Header, ops []VerifC17Op
 		}
 		*results = verifC17Apply(req.Context(), w, ops)
 	}))
+}
+
+// VerifC17StartReal starts a reference server exactly as createServer builds it in reference
+// mode (CORS, raw responder, referenceServerChecks, connect-go's mux with the raw-response
+// recorder; net/http HTTP/1.1 server for httpVersion 1, h2c for 2) on a loopback port. Its
+// stderr is discarded. The server runs until the process ends.
+func VerifC17StartReal(httpVersion int32) (addr string, err error) {
+	req := &conformancev1.ServerCompatRequest{
+		Protocol:    conformancev1.Protocol_PROTOCOL_CONNECT,
+		HttpVersion: conformancev1.HTTPVersion(httpVersion),
+	}
+	svr, _, err := createServer(req, "127.0.0.1:0", "", "", true, internal.NewPrinter(io.Discard), nil)
+	if err != nil {
+		return "", err
+	}
+	go func() { _ = svr.Serve() }()
+	return svr.Addr(), nil
 }
